@@ -229,6 +229,8 @@ int run_case(Reader& r, bool& nontrivial, std::string& desc) {
     bool group_filter = r.below(4) == 1; int filter_group = (int)r.below(3);
     bool run_ignored = r.below(4) == 1;
     bool extra_e = r.flag();
+    int verbosity = r.below(6) == 1 ? 1 + (int)r.below(2) : 0;     // -v / -vv (runner only)
+    bool colour = r.below(6) == 1;                                  // -c (runner only)
     int n = 1 + (int)r.below(24);
     int mode = (int)r.below(6);          // 0..3 free scripts, 4/5 uniform program: every test carries the same script (long runs of one failing kind)
     bool uniform = mode >= 4; TestSpec proto;
@@ -257,7 +259,7 @@ int run_case(Reader& r, bool& nontrivial, std::string& desc) {
         g_prog.push_back(s);
     }
     n = (int)g_prog.size();
-    desc = sfmt("%s r%d%s%s: ", use_runner ? "runner" : "registry", repeat, group_filter ? sfmt(" -sg %s", GROUPS[filter_group]).c_str() : "", run_ignored ? " -ri" : "") + render();
+    desc = sfmt("%s%s%s r%d%s%s: ", use_runner ? "runner" : "registry", use_runner && verbosity ? (verbosity == 1 ? " -v" : " -vv") : "", use_runner && colour ? " -c" : "", repeat, group_filter ? sfmt(" -sg %s", GROUPS[filter_group]).c_str() : "", run_ignored ? " -ri" : "") + render();
     if (verif::g_explain) fprintf(stderr, "%s\n", desc.c_str());
 
     // ---- build registry
@@ -282,6 +284,8 @@ int run_case(Reader& r, bool& nontrivial, std::string& desc) {
         if (repeat > 1) args.push_back(sfmt("-r%d", repeat));
         if (group_filter) { args.push_back("-sg"); args.push_back(GROUPS[filter_group]); }
         if (run_ignored) args.push_back("-ri");
+        if (verbosity == 1) args.push_back("-v"); else if (verbosity == 2) args.push_back("-vv");
+        if (colour) args.push_back("-c");
         std::vector<const char*> av; for (auto& a : args) av.push_back(a.c_str());
         Runner runner((int)av.size(), av.data(), &reg, &out);
         rv = runner.runAllTestsMain(); rv_valid = true;
@@ -296,6 +300,11 @@ int run_case(Reader& r, bool& nontrivial, std::string& desc) {
         reg.setGroupFilters(NULLPTR);
     }
     UtestShell::setRethrowExceptions(false);
+    if (use_runner && colour) {   // colour only wraps the summary in escape sequences: strip them, then judge as usual
+        std::string plain; for (size_t i = 0; i < out.size(); i++) { if (out[i] == '\033') { size_t m = out.find('m', i); if (m == std::string::npos) break; i = m; } else plain.push_back(out[i]); }
+        if (out.find("\033[") == std::string::npos) return verif::fail("C01:colour", "-c given but the summary carries no colour sequence");
+        out = plain;
+    }
 
     // ---- oracle
     V_CHECK(!g_probe.bad, "C01:history-invariant", "%s [%s]", g_probe.msg.c_str(), desc.c_str());
@@ -343,6 +352,7 @@ int run_case(Reader& r, bool& nontrivial, std::string& desc) {
     }
     nontrivial = (n >= 2 && outside_body) || best >= 11 || fail_then_pass;
     if (best >= 11) verif::cls("run-of-11+-failing"); if (use_runner) verif::cls("via-runner"); else verif::cls("via-registry");
+    if (use_runner && verbosity) verif::cls(verbosity == 1 ? "-v" : "-vv"); if (use_runner && colour) verif::cls("-c");
     if (repeat > 1) verif::cls("repeat>1"); if (any_throw) verif::cls("throws"); if (group_filter) verif::cls("group-filter"); if (run_ignored) verif::cls("run-ignored");
     return 0;
 }
